@@ -19,6 +19,10 @@ Driver for C08.  `T` is `u` (std::size_t instantiation, components ≥ 0) or `s`
 * `map d k a b`               map (x ↦ a*x+b)
 * `apply d1 k1 d2 k2 [d3 k3]` apply (a, bs ↦ fold (acc*1009 + b))
 * `fill d v k`                mkc d v, then fill with enc k
+* `rows w h k`                static_row constructor (N = 2), 1 ≤ w, h ≤ 4
+* `regs d0 k0 d1 k1 d2 k2 P`  three objects, `P` = special-member calls `xxDS` joined by `.` (`-` = none): `cc` copy ctor,
+                              `mc` move ctor, `ca` copy assign, `ma` move assign, `sm` member swap, `sf` free swap; D, S slot digits
+* `cmp d1 c1 d2 c2`           `== != < > <= >=` of the grids with sizes d1, d2 and cell lists c1, c2 (`-` = no cell)
 * `clamp d p`                 clamped_min p, clamped_sup_signed p d, clamped_sup (clamped_min p) d
 * `clamps d m`                digest of `clamp` over all p with -m ≤ p_i ≤ d_i + m
 * `refsub d k smin ssup`      pos_ref_range(grid, clamped_min smin, clamped_sup_signed ssup d)
@@ -84,6 +88,49 @@ def refsubLine (d : List Int) (k : Int) (smin ssup : Pos) : String :=
 def clampLine (d : List Int) (p : Pos) : String :=
   exc (clampedSupSigned p d) fun css =>
     s!"cmin={il (clampedMin p)} csups={il css} csup={il (clampedSup (clampedMin p) d)}"
+
+/-- `rows w h k`: the static_row constructor with `h` rows of `w` cells, row `y` = `enc k (0,y) … enc k (w-1,y)` -/
+def rowsLine (w h : Nat) (k : Int) : String :=
+  let row (y : Nat) : List Int := (List.range w).map fun (x : Nat) => enc k [(x : Int), (y : Int)]
+  match (List.range h).map row with
+  | [] => "bad-op"
+  | r1 :: rs => gridStr (Grid.mkRows r1 rs)
+
+def parseRegOp (s : String) : Option RegOp :=
+  let dig (ch : Char) : Option Nat := if '0' ≤ ch ∧ ch ≤ '9' then some (ch.toNat - 48) else none
+  match s.toList with
+  | [a, b, c, d] =>
+    match dig c, dig d with
+    | some i, some j =>
+      if a == 'c' && b == 'c' then some (.copyCtor i j)
+      else if a == 'm' && b == 'c' then some (.moveCtor i j)
+      else if a == 'c' && b == 'a' then some (.copyAssign i j)
+      else if a == 'm' && b == 'a' then some (.moveAssign i j)
+      else if a == 's' && b == 'm' then some (.swapMember i j)
+      else if a == 's' && b == 'f' then some (.swapFree i j)
+      else none
+    | _, _ => none
+  | _ => none
+
+def parseProg (s : String) : Option (List RegOp) :=
+  if s == "-" then some [] else (s.splitOn ".").mapM parseRegOp
+
+def slotStr (x : Slot Int) : String :=
+  if x.moved then s!"moved size={il x.g.size}" else gridStr x.g
+
+/-- `regs d0 k0 d1 k1 d2 k2 prog`: three objects, a history of special-member calls, then all three printed -/
+def regsLine (dks : List (List Int × Int)) (prog : List RegOp) : String :=
+  match dks.mapM fun dk => (mkGrid dk.1 dk.2).toOption with
+  | none => "diverge"
+  | some gs =>
+    match regRun (gs.map fun g => ⟨g, false⟩) prog with
+    | none => "bad-op"
+    | some st => " ; ".intercalate (st.map slotStr)
+
+/-- `cmp d1 c1 d2 c2`: the six comparison operators on the grids with the given sizes and cells -/
+def cmpLine (a b : Grid Int) : String :=
+  exc (a.eq b) fun e => exc (a.ne b) fun n =>
+    s!"eq={b01 e} ne={b01 n} lt={b01 (a.lt b)} gt={b01 (a.gt b)} le={b01 (a.le b)} ge={b01 (a.ge b)}"
 
 def applyF (a : Int) (bs : List Int) : Int := bs.foldl (fun acc b => acc * 1009 + b) a
 
@@ -203,6 +250,23 @@ def handle (toks : List String) : String :=
     | some d, some v, some k =>
       if okDims [d] && nonneg d then exc ((Grid.mkConst d v).fill (enc k)) gridStr else "bad-op"
     | _, _, _ => "bad-op"
+  | ["rows", w, h, k] =>
+    match String.toNat? w, String.toNat? h, I k with
+    | some w, some h, some k => if 1 ≤ w && w ≤ 4 && 1 ≤ h && h ≤ 4 then rowsLine w h k else "bad-op"
+    | _, _, _ => "bad-op"
+  | ["regs", d0, k0, d1, k1, d2, k2, prog] =>
+    match L d0, I k0, L d1, I k1, L d2, I k2, parseProg prog with
+    | some d0, some k0, some d1, some k1, some d2, some k2, some prog =>
+      if okDims [d0, d1, d2] && nonneg d0 && nonneg d1 && nonneg d2 then regsLine [(d0, k0), (d1, k1), (d2, k2)] prog
+      else "bad-op"
+    | _, _, _, _, _, _, _ => "bad-op"
+  | ["cmp", d1, c1, d2, c2] =>
+    match L d1, L c1, L d2, L c2 with
+    | some d1, some c1, some d2, some c2 =>
+      if okDims [d1, d2] && nonneg d1 && nonneg d2 && (c1.length : Int) == contents d1 && (c2.length : Int) == contents d2 then
+        cmpLine ⟨d1, c1⟩ ⟨d2, c2⟩
+      else "bad-op"
+    | _, _, _, _ => "bad-op"
   | ["clamp", d, p] =>
     match L d, L p with
     | some d, some p =>
